@@ -1122,17 +1122,28 @@ def judge_C11b(W, ex):
     if W.case['prop'] != 'C11':
         return
     steps = [e for e in k.log if e[2] == 'rs-step']
-    accept_steps = sorted(c[0] for r in W.jobs.values() for c in r.cbs if c[2] == 'acc')
     models = {}
-    ai = 0
-    for e in steps:
+    reset_seen = False
+    for e in k.log:
+        if e[2] == 'rs-reset':
+            # an accept message was consumed: the result handler zeroed the count of this limiter
+            reset_seen = True
+            if e[3] in models:
+                models[e[3]]['count'] = 0
+            continue
+        if e[2] == 'accept-consumed':
+            # "the count starts afresh when ... a job has been accepted": the reset must have happened by now
+            # (the limiter the pool was configured with is the first one it consults)
+            if not reset_seen:
+                bad('C11.r', 'accept-did-not-reset-count', 'the accept message of job %r was consumed (step %d) '
+                    'without the restart count being zeroed' % (e[3], e[0]))
+            reset_seen = False
+            continue
+        if e[2] != 'rs-step':
+            continue
         st, serial, maxR, maxT, Rb, Tb, now, outcome = e[0], e[3], e[4], e[5], e[6], e[7], e[8], e[9]
-        m = models.setdefault(serial, {'count': 0, 'start': None})
-        # acceptances since the previous request zero the count (of the pool's configured limiter)
-        while ai < len(accept_steps) and accept_steps[ai] <= st:
-            for mm in models.values():
-                mm['count'] = 0
-            ai += 1
+        m = models.setdefault(serial, {'count': 0, 'start': None,
+                                       'burst': maxT == 1 and maxR == 10 * W.case['pool']['processes']})
         if m['start'] is not None and now - m['start'] >= maxT:
             m['start'], m['count'] = None, 0
         if maxR and m['count'] >= maxR:
